@@ -103,6 +103,67 @@ func genCase(t *rapid.T) copyx.Case {
 	return c
 }
 
+// genDiamond (as in C02, with a failing callback instead of a storage fault): a root index over 2-4 parents that all share one node (a layer, or a
+// whole image), every parent with a few nodes of its own; one fault on the shared
+// node or on something below it; heavy latency. The shape in which one parent owns
+// the failing node while the others wait for it.
+func genDiamond(t *rapid.T) copyx.Case {
+	var specs []gen.NodeSpec
+	blob := func(size int) int {
+		specs = append(specs, gen.NodeSpec{Kind: gen.KBlob, Seed: 200 + len(specs), Size: size, MT: "application/octet-stream"})
+		return len(specs) - 1
+	}
+	sharedIsManifest := rapid.Bool().Draw(t, "sharedIsManifest")
+	var shared, below int
+	if sharedIsManifest {
+		cfg := blob(7)
+		below = blob(rapid.IntRange(1, 40).Draw(t, "belowSize"))
+		specs = append(specs, gen.NodeSpec{Kind: gen.KImage, Config: &gen.Ref{N: cfg}, Layers: []gen.Ref{{N: below}}})
+		shared = len(specs) - 1
+	} else {
+		shared = blob(rapid.IntRange(1, 40).Draw(t, "sharedSize"))
+		below = shared
+	}
+	k := rapid.IntRange(2, 4).Draw(t, "parents")
+	var parents []gen.Ref
+	for i := 0; i < k; i++ {
+		own := rapid.IntRange(0, 3).Draw(t, "own")
+		if sharedIsManifest {
+			var kids []gen.Ref
+			for j := 0; j < own; j++ {
+				cfg := blob(5)
+				specs = append(specs, gen.NodeSpec{Kind: gen.KImage, Config: &gen.Ref{N: cfg}})
+				kids = append(kids, gen.Ref{N: len(specs) - 1})
+			}
+			pos := rapid.IntRange(0, len(kids)).Draw(t, "sharedPos")
+			kids = append(kids[:pos], append([]gen.Ref{{N: shared}}, kids[pos:]...)...)
+			specs = append(specs, gen.NodeSpec{Kind: gen.KIndex, Layers: kids})
+		} else {
+			cfg := blob(6)
+			var layers []gen.Ref
+			for j := 0; j < own; j++ {
+				layers = append(layers, gen.Ref{N: blob(rapid.IntRange(1, 30).Draw(t, "ownSize"))})
+			}
+			pos := rapid.IntRange(0, len(layers)).Draw(t, "sharedPos")
+			layers = append(layers[:pos], append([]gen.Ref{{N: shared}}, layers[pos:]...)...)
+			specs = append(specs, gen.NodeSpec{Kind: gen.KImage, Config: &gen.Ref{N: cfg}, Layers: layers})
+		}
+		parents = append(parents, gen.Ref{N: len(specs) - 1})
+	}
+	specs = append(specs, gen.NodeSpec{Kind: gen.KIndex, Layers: parents})
+	c := copyx.Case{Specs: specs, Root: len(specs) - 1, SrcKind: "memory", DstKind: rapid.SampledFrom([]string{"memory", "oci"}).Draw(t, "dstKind")}
+	c.API = rapid.SampledFrom([]string{"copygraph", "copy"}).Draw(t, "api")
+	c.Conc = rapid.SampledFrom([]int{2, 3, 4, 0}).Draw(t, "conc")
+	c.Callbacks = true
+	c.LatSeed = rapid.IntRange(1, 1<<20).Draw(t, "latSeed")
+	// the shared node's own transfer fails in a callback (or, for the node below it,
+	// the failure comes up from a successor)
+	node := rapid.SampledFrom([]int{shared, shared, shared, below}).Draw(t, "faultNode")
+	op := rapid.SampledFrom([]string{"PreCopy", "PreCopy", "PostCopy"}).Draw(t, "cbOp")
+	c.Faults = []inst.Fault{{Side: "cb", Op: op, Node: node, When: "before", Kind: "error"}}
+	return c
+}
+
 type nodeLog struct {
 	pre, post, skipped []inst.Event // callback begin events
 	pushBegin, pushEnd []inst.Event
@@ -300,9 +361,11 @@ func keysOf(m map[int]*nodeLog) map[int]bool {
 }
 
 func TestMain(m *testing.M) {
+	vt.ReplayRepeat["diamond"] = 40
 	vt.Main(m, "C04",
 		vt.NewLeg("main", 1200, 3000, 16, genCase, runCase),
 		vt.NewLeg("mount", 500, 2000, 8, genMount, runMount),
+		vt.NewLeg("diamond", 400, 1500, 4, genDiamond, runCase),
 	)
 }
 
